@@ -344,7 +344,7 @@ class StochasticAndFilterDuplicatesSearcher(StochasticSearcher):
         state = super().get_state()
         state["excl_list"] = self._excl_list.get_state()
         if self._allow_duplicates:
-            state["config_for_trial_id"] = self._config_for_trial_id
+            state["config_for_trial_id"] = self._config_for_trial_id.copy()
         if self._restrict_configurations is not None:
             # Copy: Entries are popped off this list in ``get_config``
             state["restrict_configurations"] = self._restrict_configurations.copy()
@@ -355,7 +355,7 @@ class StochasticAndFilterDuplicatesSearcher(StochasticSearcher):
         self._excl_list = ExclusionList(self._hp_ranges)
         self._excl_list.clone_from_state(state["excl_list"])
         if self._allow_duplicates:
-            self._config_for_trial_id = state["config_for_trial_id"]
+            self._config_for_trial_id = state["config_for_trial_id"].copy()
         k = "restrict_configurations"
         if k in state:
             self._restrict_configurations = state[k].copy()
